@@ -51,12 +51,12 @@ type Tty struct {
 	KeepRaw bool
 
 	// fault injection
-	ReadErrAt   int64 // fail the k-th Read (1-based) with ReadErr; 0 = never
-	ReadErr     error
-	StartErr    error
-	WinSizeErr  error
+	ReadErrAt       int64 // fail the k-th Read (1-based) with ReadErr; 0 = never
+	ReadErr         error
+	StartErr        error
+	WinSizeErr      error
 	DrainReturnsNil bool // after Drain a blocked Read returns (0,nil) instead of a deadline error
-	reads       int64
+	reads           int64
 
 	app       int32 // >0 while the application is inside a Screen call
 	finiPhase int32 // 1 while Fini is in progress or done
@@ -72,10 +72,10 @@ func New(w, h int) *Tty {
 }
 
 // BeginApp / EndApp mark an application call into the Screen.
-func (t *Tty) BeginApp()     { atomic.AddInt32(&t.app, 1) }
-func (t *Tty) EndApp()       { atomic.AddInt32(&t.app, -1) }
-func (t *Tty) BeginFini()    { atomic.StoreInt32(&t.finiPhase, 1) }
-func (t *Tty) inApp() bool   { return atomic.LoadInt32(&t.app) > 0 }
+func (t *Tty) BeginApp()   { atomic.AddInt32(&t.app, 1) }
+func (t *Tty) EndApp()     { atomic.AddInt32(&t.app, -1) }
+func (t *Tty) BeginFini()  { atomic.StoreInt32(&t.finiPhase, 1) }
+func (t *Tty) inApp() bool { return atomic.LoadInt32(&t.app) > 0 }
 
 func (t *Tty) errf(f string, a ...any) {
 	if len(t.Errors) < 20 {
